@@ -1,6 +1,9 @@
 package jet
 
-import "io/ioutil"
+import (
+	"io/ioutil"
+	"path"
+)
 
 // ---- C19 (in-memory loader): all spellings that normalise to the same clean absolute
 // path are one entry across Set, Delete, Exists and Open ----
@@ -107,10 +110,107 @@ func H_C19_inmem1() {
 // third operation.
 //
 //gosym:reach hit,miss
+//gosym:opts maxpaths=1500000
 func H_C19_inmem2() {
 	n := 2
 	if vfTier() == 1 {
 		n = 2 + ndChoice("nops3", 2)
 	}
 	c19Run(n, 2)
+}
+
+// ---- C19 (OS file-system loader) ----
+
+// c19OSCheck: for the loader rooted at dir, Exists(p) is true exactly when p names a
+// regular file of the tree as listed independently (vfListTree), never for a directory
+// or a missing entry, and then Open(p) yields the file's bytes.
+func c19OSCheck(l *OSFileSystemLoader, dir, p string, tree []string) {
+	isFile, isDir := false, false
+	hit := ""
+	for _, e := range tree {
+		if e[len(e)-1] != '/' && e == p {
+			isFile = true
+			hit = e
+		}
+		if e == p+"/" || (p == "/" && e == "/") {
+			isDir = true
+		}
+	}
+	got := l.Exists(p)
+	if isDir {
+		vfReach("dir")
+		vfAssert(!got, "a directory is never reported as an existing template")
+	}
+	vfAssert(got == isFile, "Exists reports exactly the regular files below the root")
+	if isFile {
+		vfReach("file")
+		f, err := l.Open(p)
+		vfAssert(err == nil, "whenever Exists(p) is true, Open(p) succeeds")
+		if err == nil {
+			b, rerr := ioutil.ReadAll(f)
+			f.Close()
+			vfAssert(rerr == nil && string(b) == vfFileContent(dir+hit), "... and yields exactly the file's content")
+			vfNote(string(b))
+		}
+	} else {
+		vfReach("notfile")
+	}
+}
+
+var c19OSRoots = []string{"/repo/testData/resolve", "/repo/testData/resolve/", "/repo/testData", "/repo/testData/resolve/sub", "/repo/loaders/../testData/resolve"}
+var c19OSDirs = []string{"/repo/testData/resolve", "/repo/testData/resolve", "/repo/testData", "/repo/testData/resolve/sub", "/repo/testData/resolve"}
+
+// H_C19_osShort: every clean absolute path of up to 4 (quick) / 5 (thorough) bytes - all
+// bytes symbolic - against the real tree below /repo/testData (several spellings of the
+// root directory): short names of directories ("/sub"), missing entries, "/.." forms.
+//
+//gosym:reach dir,notfile
+func H_C19_osShort() {
+	vfOSRoot("/repo", "/repo")
+	r := ndChoice("root", len(c19OSRoots))
+	n := 3 + vfTier()
+	k := ndChoice("len", n+1)
+	p := "/" + ndString("p", k)
+	vfAssume(path.Clean(p) == p)
+	vfAssume(!hxContains(p, "\x00"))
+	l := NewOSFileSystemLoader(c19OSRoots[r])
+	c19OSCheck(l, c19OSDirs[r], p, vfListTree(c19OSDirs[r]))
+}
+
+// H_C19_osNear: every entry of the real tree (files, directories, nested entries) and a
+// few missing names, with one byte (two in the thorough tier) replaced by an arbitrary
+// byte at every position - the exact name, every near miss, every '/' that turns a name
+// into a nested path - kept when the result is still a clean absolute path.
+//
+//gosym:reach file,dir,notfile
+func H_C19_osNear() {
+	vfOSRoot("/repo", "/repo")
+	r := ndChoice("root", 2) * 2 // "/repo/testData/resolve", "/repo/testData"
+	tree := vfListTree(c19OSDirs[r])
+	var universe []string
+	for _, e := range tree {
+		if len(e) > 1 && e[len(e)-1] == '/' {
+			e = e[:len(e)-1]
+		}
+		if len(e) <= 24 {
+			universe = append(universe, e)
+		}
+	}
+	universe = append(universe, "/nope.jet", "/sub/nope", "/simple.jet/x", "/sub/extend/..")
+	if len(universe) > 24 {
+		universe = universe[:24]
+	}
+	base := universe[ndChoice("entry", len(universe))]
+	b := []byte(base)
+	for m := 0; m <= vfTier(); m++ {
+		pos := ndChoice("pos"+string(rune('0'+m)), len(b))
+		if pos > 0 {
+			b[pos] = ndByte("b" + string(rune('0'+m)))
+		}
+	}
+	p := string(b)
+	vfAssume(path.Clean(p) == p)
+	vfAssume(!hxContains(p, "\x00"))
+	l := NewOSFileSystemLoader(c19OSRoots[r])
+	c19OSCheck(l, c19OSDirs[r], p, tree)
 }
